@@ -17,6 +17,8 @@ EXPLANATION = (
   "interval with visible text is skipped; (ORD-docorder) paragraphs are collected in one in-order pass; (FIN-default) an open last "
   "cue ends exactly 10 s after its own begin and blank open cues are removed. Decides these clauses, not the text/ordering behaviour."
   " (STATE-alias / STATE-global) no function of the anchored modules mutates a module- or class-level container, rebinds module / class state or mutates a mutable default argument, so a result never depends on earlier calls;"
+  ' (RAISE-interval) a cue is created only for an interval that is not empty at millisecond resolution: the test compares the rounded end and begin, so an interval that rounds to distinct time codes is kept and one that does not is skipped;'
+  ' (FRESH) the merging filters construct the container they push once per region, never one object shared by all regions;'
 )
 RULE_TEXT = ("one rule instance per (function, live loop), per (flattener, element kind), per writer for SEQ-end / FIN-default; "
              "distinct = distinct (rule, construct) pairs")
@@ -186,4 +188,7 @@ def run(ctx):
   natural = isinstance(moving[0].iter, ast.Name) and len(srcs_) == 1 and unparse(srcs_[0]) in ("list(isd.iter_regions())", "tuple(isd.iter_regions())", "isd.iter_regions()")
   ctx.check(natural or unparse(moving[0].iter) in ("isd.iter_regions()", "list(isd.iter_regions())"), "ORD-docorder", f"{mr_.qualname}|regions are merged in document order", ctx.where(mr_.module, moving[0]),
             f"iterates `{unparse(moving[0].iter)}` = the regions in their order in the ISD", f"the content of the regions is merged in the order of `{short(moving[0].iter, 60)}`, not in the order of the regions in the document: simultaneous text of different regions is swapped")
+  for prod, ref in (("ttconv.srt.writer:SrtContext.add_isd", "ttconv.srt.paragraph:SrtParagraph.to_string"), ("ttconv.vtt.writer:VttContext.add_isd", "ttconv.vtt.cue:VttCue.to_string")):
+    shape.check_interval_resolution(ctx, ctx.ix.func(prod), ctx.ix.func(ref))
+  shape.check_fresh_per_iteration(ctx, common.funcs(ctx, common.ISD_FILTERS))
   common.check_history_independence(ctx, common.WRITERS + common.ISD_FILTERS + ["ttconv.isd"])
